@@ -197,6 +197,9 @@ func (w *World) checkHeld(when string) {
 				return
 			}
 			seen[k] = c
+			if c.Lost[k] {
+				continue // another process took it while the daemon was down: nothing the daemon can do (documented in setupIPtables)
+			}
 			if c.Phase == "up" && c.UpProc == w.proc && !w.heldByGalaxy(m) {
 				w.fail("C14.ports", "port-not-held", "%s: host port %s handed out to pod %s (container %s) is not bound by the daemon although the pod has not been torn down", when, k, c.Pod.key(), c.ID[:8])
 				return
@@ -292,7 +295,7 @@ func (w *World) oracleC14RequestEnd(r *Request) {
 			w.S.Stat("probe.portmapping-cleanup")
 		}
 	}
-	if !ok && !r.fault && !c.Tainted && !r.inUse && !r.overlap && !c.Pod.ExpectFail {
+	if !ok && !r.fault && !c.Tainted && !r.inUse && !r.overlap && !r.badResult && !c.Pod.ExpectFail && !w.podEdited[c.Pod.Idx] {
 		if r.Cmd == "DEL" {
 			w.fail("C14.inverse", "cleanup-fails-without-fault", "%s failed although no fault was injected: %s", who, strings.TrimSpace(string(r.Resp)))
 		} else {
@@ -396,8 +399,16 @@ func (w *World) oracleC14Ready() {
 			continue
 		}
 		for _, m := range c.Mappings {
+			if c.Lost[fmt.Sprintf("%s/%d", m.Proto, m.HostPort)] {
+				w.S.Stat("probe.start-with-port-taken-by-other-process")
+				continue
+			}
 			if !w.heldByGalaxy(m) {
-				w.fail("C14.ports", "port-not-reopened", "after a restart host port %s/%d of pod %s is not bound by the daemon although no other process holds it", m.Proto, m.HostPort, c.Pod.key())
+				if len(c.Lost) > 0 {
+					w.fail("C14.ports", "sibling-port-not-reopened", "after a restart host port %s/%d of pod %s is not bound by the daemon although no other process holds it: another port of the same pod (%v) was taken by another process while the daemon was down, and the start-up code then gave up all ports of the pod", m.Proto, m.HostPort, c.Pod.key(), sortedKeys(c.Lost))
+				} else {
+					w.fail("C14.ports", "port-not-reopened", "after a restart host port %s/%d of pod %s is not bound by the daemon although no other process holds it", m.Proto, m.HostPort, c.Pod.key())
+				}
 				return
 			}
 		}
